@@ -460,6 +460,64 @@ example : guardMprodList ⟨false,[2,3,4],[]⟩ 2 [(0,5,2)] = .err .InvalidArgum
 example : guardMprodList ⟨false,[2,3,4],[]⟩ 2 [(0,5,2),(0,6,2)] = .err .ShapeMismatch := by decide
 example : guardMprodList ⟨false,[2,3,4],[]⟩ 1 [(3,5,2)] = .err .Other := by decide
 
+/-! ## (11) `qtt_to_tens` -/
+
+/-- whenever the grouping loop accepts, the groups it formed use up ALL the cores: the element counts agree
+    (`acc` = running size of the open group) — a target shape that folds only a proper prefix of the modes is never accepted -/
+theorem qttGo_ok_prod (N shape : List Nat) (acc : Option Nat) (h : qttGo N shape acc = .ok) :
+    acc.getD 1 * prodL N = prodL shape := by
+  induction N generalizing shape acc with
+  | nil =>
+    cases shape with
+    | nil =>
+      cases acc with
+      | none => simp [prodL]
+      | some a => simp [qttGo] at h
+    | cons s ss => simp [qttGo] at h
+  | cons n ns ih =>
+    cases shape with
+    | nil => simp [qttGo] at h
+    | cons s ss =>
+      cases acc with
+      | none =>
+        simp only [qttGo] at h
+        by_cases hs : n = s
+        · rw [if_pos hs] at h
+          have h1 := ih ss none h
+          simp only [Option.getD_none, Nat.one_mul, prodL] at h1 ⊢
+          rw [h1, hs]
+        · rw [if_neg hs] at h
+          have h1 := ih (s :: ss) (some n) h
+          simp only [Option.getD_some, Option.getD_none, Nat.one_mul, prodL] at h1 ⊢
+          exact h1
+      | some a =>
+        simp only [qttGo] at h
+        by_cases hs : a * n = s
+        · rw [if_pos hs] at h
+          have h1 := ih ss none h
+          simp only [Option.getD_none, Nat.one_mul, Option.getD_some, prodL] at h1 ⊢
+          rw [← h1, ← hs, Nat.mul_assoc]
+        · rw [if_neg hs] at h
+          have h1 := ih (s :: ss) (some (a * n)) h
+          simp only [Option.getD_some, prodL] at h1 ⊢
+          rw [← h1, Nat.mul_assoc]
+
+/-- `qtt_to_tens` returns an object only if the operand is a TT tensor and the target shape has exactly as many elements as the operand -/
+theorem qttToTens_guard (x : Sh) (shape : List Nat) (h : guardQttToTens x shape = .ok) :
+    x.isTTM = false ∧ prodL x.N = prodL shape := by
+  obtain ⟨tx, xN, xM⟩ := x
+  cases tx
+  · simp only [guardQttToTens] at h
+    have h1 := qttGo_ok_prod xN shape none (by simpa using h)
+    exact ⟨rfl, by simpa using h1⟩
+  · simp [guardQttToTens] at h
+
+example : guardQttToTens ⟨false,[2,2,2,2],[]⟩ [4,4] = .ok := by decide
+example : guardQttToTens ⟨false,[2,2,2,2],[]⟩ [4,2] = .err .Other := by decide
+example : guardQttToTens ⟨false,[2,2,2,2],[]⟩ [4,4,2] = .err .ShapeMismatch := by decide
+example : guardQttToTens ⟨false,[2,2,2,2],[]⟩ [8,3] = .err .ShapeMismatch := by decide
+example : guardQttToTens ⟨true,[2,2],[2,2]⟩ [4] = .err .Other := by decide
+
 theorem pad_guard (d npad : Nat) : guardPad d npad = .ok ↔ npad ≤ d := by
   simp [guardPad]
 
